@@ -57,11 +57,16 @@ ObsReal(rec) ==
   IN [code |-> ReplyCode(rec),
       nack |-> IF rec.rid # "" THEN Len(mine) ELSE Len(anyReply),
       data |-> UNION {{[s |-> s, seq |-> DataFrames(rec, s)[i].seq, from |-> DataFrames(rec, s)[i].from,
-                        content |-> DataFrames(rec, s)[i].content] : i \in DOMAIN DataFrames(rec, s)} : s \in Sessions},
+                        content |-> DataFrames(rec, s)[i].content, topic |-> DataFrames(rec, s)[i].topic] : i \in DOMAIN DataFrames(rec, s)} : s \in Sessions},
       ndata |-> [s \in Sessions |-> Len(DataFrames(rec, s))],
       push |-> {ToSet(rec.push[i].to) : i \in {j \in DOMAIN rec.push : rec.push[j].what = "msg"}},
       ackSeq |-> IF rep.k = "ctrl" /\ "seq" \in DOMAIN rep.params THEN rep.params.seq ELSE 0,
       afterCrash |-> rec.afterCrash,
+      \* permission-change notices received inside a group topic: [s, t, src (user named, "" = the recipient), want, given (texts)]
+      acs |-> UNION {{[s |-> s, t |-> Frames(rec, s)[i].topic, src |-> Frames(rec, s)[i].src,
+                       want |-> Frames(rec, s)[i].dacs_want, given |-> Frames(rec, s)[i].dacs_given]
+                      : i \in {x \in DOMAIN Frames(rec, s) : Frames(rec, s)[x].k = "pres" /\ Frames(rec, s)[x].what = "acs"
+                                                              /\ Frames(rec, s)[x].topic \in GrpTopics}} : s \in Sessions},
       ackDel |-> IF rep.k = "ctrl" /\ "del" \in DOMAIN rep.params THEN rep.params.del ELSE 0,
       delmeta |-> UNION {{[s |-> s, clear |-> Frames(rec, s)[i].del.clear,
                            ids |-> UNION {IdsOf([low |-> Frames(rec, s)[i].del.delseq[j][1], hi |-> Frames(rec, s)[i].del.delseq[j][2]]) :
